@@ -138,6 +138,11 @@ pub const EXEMPLARS: &[&str] = &[
     "S: A; U: 'x'; terminals A: 'a';",
     "S: A; U: x=A y=A* z=U?; terminals A: /a/;",
     "S: A* A0; A0: 'b'; terminals A: 'a'; B: 'b';",
+    // symbol names whose snake-case form is a Rust keyword (with and without an actions file)
+    "S: Type;\nterminals\nType: /t+/;\n",
+    "S: Box Fn;\nBox: Ta;\nFn: Tb | Box;\nterminals\nTa: 'a';\nTb: /b+/;\n",
+    "S: Match+;\nMatch: Loop | While;\nterminals\nLoop: /l\\d/;\nWhile: 'w';\n",
+    "S: Self_ Ta;\nSelf_: Tb;\nterminals\nTa: 'a';\nTb: /b/;\n",
     // regexes one or both regex crates refuse
     "S: A;\nterminals\nA: /(b/;\n",
     "S: A B;\nterminals\nA: /[z-a]/;\nB: 'b';\n",
@@ -357,6 +362,7 @@ pub fn random_spec(rng: &mut Rng) -> SetSpec {
         gen_table: rng.below(2) as u8,
         loc_info: rng.chance(0.2),
         fancy: rng.chance(0.2),
+        noactions: rng.chance(0.15),
         ..Default::default()
     }
 }
@@ -437,6 +443,11 @@ pub fn main(a: &Args) {
                 for (ps, pse) in [(false, true), (true, false)] {
                     for builder in [0u8, 1] {
                         let spec = SetSpec { glr, table: Some(table), ps: Some(ps), pse: Some(pse), builder, ..Default::default() };
+                        judge(e, &spec, "exemplar", &wd, &mut rep, &curfile);
+                    }
+                    if table == 1 {
+                        // default builder without an actions file (rcomp --noactions)
+                        let spec = SetSpec { glr, table: Some(table), ps: Some(ps), pse: Some(pse), builder: 0, noactions: true, ..Default::default() };
                         judge(e, &spec, "exemplar", &wd, &mut rep, &curfile);
                     }
                 }
